@@ -294,7 +294,7 @@ class Settings:
     def registerUserPlugins(self):
         """Add any ad-hoc 'user' plugins that are referenced in the settings file."""
         userPlugins = self["userPlugins"]
-        if len(userPlugins):
+        if userPlugins:
             from armi import getApp
 
             app = getApp()
